@@ -751,7 +751,7 @@ pub fn run_c37(ctx: &mut Ctx) {
     let n = ctx.cases(300, 15_000);
     ctx.search("payout", n, payout_case, check_payout);
     for (class, min) in [
-        ("three_or_more_claimants", 150),
+        ("three_or_more_claimants", 125),
         ("non_divisible", 150),
         ("last_claim_collects_rounding_dust", 60),
         ("token_2022_synthesised_deposit", 60),
